@@ -113,7 +113,8 @@ KnownDefect == <<
   "q_stubKeywordType",       \* object type named by a Go keyword with resolvers (with the stub file)
   "q_argNamedPanic",         \* field argument named panic
   "q_autobindIntrospection", \* a type whose Go name is Type in an autobound package
-  "q_valueStructCycle3"      \* 3-cycle of non-null object references (with value struct fields)
+  "q_valueStructCycle3",     \* 3-cycle of non-null object references (with value struct fields)
+  "q_leadUnderscoreTypeResolver" \* object type whose name starts with an underscore, with a resolver field
 >>
 Pinned == {KnownDefect[i] : i \in 1..Len(KnownDefect)}
 
@@ -216,6 +217,7 @@ ProbeNeeds(q) ==
     [] q = "q_argNamedPanic"         -> [idKeyword |-> TRUE]
     [] q = "q_autobindIntrospection" -> [idKeyword |-> TRUE, models |-> "bound"]
     [] q = "q_valueStructCycle3"     -> [struct_fields_always_pointers |-> FALSE]
+    [] q = "q_leadUnderscoreTypeResolver" -> [idUnderscore |-> TRUE]
 
 ProbeRow(q) == (q :> TRUE) @@ ProbeNeeds(q) @@ DefaultRow
 RECURSIVE ProbeRows(_)
